@@ -308,6 +308,14 @@ func FindRewriteSites(p *core.Program, nk *NodeKinds, rel string) []*RewriteSite
 					}
 				}
 			}
+			if len(s.Context) == 0 || !strings.HasPrefix(s.Context[0], "*") {
+				// no type switch over the matched node: a successful comma-ok assertion of it
+				// that dominates the site (`n, ok := (*node).(*K); if !ok { return }`, or as the
+				// init of an enclosing if) says the same
+				if k := assertedKind(info, nk, fd, al, stack, call); k != "" {
+					s.Context = append([]string{"*" + k}, s.Context...)
+				}
+			}
 			if lit := al.Literal(repl); lit != nil {
 				if k := nk.KindOfType(info.TypeOf(lit)); k != nil {
 					s.ReplKind = k.Name
@@ -336,6 +344,77 @@ func FindRewriteSites(p *core.Program, nk *NodeKinds, rel string) []*RewriteSite
 		}
 	}
 	return sites
+}
+
+// assertedKind: the node kind K of a comma-ok assertion `x, ok := (*node).(*K)` whose success
+// dominates the call: the assertion is the init of an enclosing if whose condition requires ok,
+// or it stands in an enclosing statement list and the next statement leaves when !ok.
+func assertedKind(info *types.Info, nk *NodeKinds, fd *ast.FuncDecl, al *Aliases, stack []ast.Node, call *ast.CallExpr) string {
+	kindOf := func(as *ast.AssignStmt) (string, types.Object) {
+		if as == nil || len(as.Lhs) != 2 || len(as.Rhs) != 1 {
+			return "", nil
+		}
+		ta, ok := Unparen(as.Rhs[0]).(*ast.TypeAssertExpr)
+		if !ok || ta.Type == nil || al.Norm(ta.X) != "*node" {
+			return "", nil
+		}
+		k := nk.KindOfType(info.TypeOf(ta.Type))
+		okID, isID := as.Lhs[1].(*ast.Ident)
+		if k == nil || !isID {
+			return "", nil
+		}
+		obj := info.Defs[okID]
+		if obj == nil {
+			obj = info.Uses[okID]
+		}
+		return k.Name, obj
+	}
+	isOK := func(e ast.Expr, obj types.Object) bool {
+		id, ok := Unparen(e).(*ast.Ident)
+		return ok && info.Uses[id] == obj
+	}
+	for i := len(stack) - 1; i >= 0; i-- {
+		switch x := stack[i].(type) {
+		case *ast.IfStmt:
+			if as, ok := x.Init.(*ast.AssignStmt); ok && i+1 < len(stack) && stack[i+1] == ast.Node(x.Body) {
+				if k, obj := kindOf(as); k != "" {
+					for _, c := range Conjuncts(x.Cond, false) {
+						if isOK(c, obj) {
+							return k
+						}
+					}
+				}
+			}
+		case *ast.BlockStmt, *ast.CaseClause:
+			var list []ast.Stmt
+			if b, ok := x.(*ast.BlockStmt); ok {
+				list = b.List
+			} else {
+				list = x.(*ast.CaseClause).Body
+			}
+			for j, st := range list {
+				if st.End() > call.Pos() {
+					break
+				}
+				as, ok := st.(*ast.AssignStmt)
+				if !ok || j+1 >= len(list) {
+					continue
+				}
+				k, obj := kindOf(as)
+				if k == "" {
+					continue
+				}
+				if g, ok := list[j+1].(*ast.IfStmt); ok && g.Else == nil && g.Init == nil && stmtsLeave(g.Body.List) && g.End() <= call.Pos() {
+					for _, d := range Disjuncts(g.Cond, false) {
+						if u, ok := d.(*ast.UnaryExpr); ok && u.Op == token.NOT && isOK(u.X, obj) {
+							return k
+						}
+					}
+				}
+			}
+		}
+	}
+	return ""
 }
 
 func isWrapperLit(info *types.Info, fd *ast.FuncDecl, fl *ast.FuncLit, wrappers map[types.Object]int) bool {
